@@ -736,11 +736,13 @@ impl From<(ASN1Value, Option<ExtensionMarker>)> for SubtypeElements {
     }
 }
 
-impl From<Constraint> for SubtypeElements {
-    fn from(value: Constraint) -> Self {
+/// The operand of a `SIZE` constraint: only a subtype constraint can stand there.
+impl TryFrom<Constraint> for SubtypeElements {
+    type Error = Constraint;
+    fn try_from(value: Constraint) -> Result<Self, Self::Error> {
         match value {
-            Constraint::Subtype(set) => Self::SizeConstraint(Box::new(set.set)),
-            _ => unreachable!(),
+            Constraint::Subtype(set) => Ok(Self::SizeConstraint(Box::new(set.set))),
+            other => Err(other),
         }
     }
 }
